@@ -1716,6 +1716,175 @@ def t12(ast):
     return defs
 
 
+# ------------------------------------------------------------------------------------ T13
+# the ring of unsolicited events: `push_unsolicited_cmd`, `pop_unsolicited_cmd`, `check_unsolicited_buffers`.
+# Pointers into the ring become indices, the out-parameters of pop a returned pair; the statement
+# shapes are checked one by one.
+
+RING = "unsolicited_fsm.unsolicited_cmd_buffer"
+
+
+def _is_pred_call(n, name):
+    """<name>(self) != false"""
+    c = strip(n)
+    if c.get("kind") == "BinaryOperator" and c.get("opcode") == "!=" and _is_self_call(c["inner"][0], name):
+        try:
+            return _rhs(c["inner"][1], "bool", [], {}) == "false"
+        except Unrecognised:
+            return False
+    return False
+
+
+def _ret_name(st):
+    if st.get("kind") != "ReturnStmt" or not st.get("inner"):
+        return None
+    return strip(st["inner"][0]).get("referencedDecl", {}).get("name")
+
+
+def _item_addr(st, cursor):
+    """item = &self->...buffer[self->...<cursor>]"""
+    e = strip(st)
+    if not (e.get("kind") == "BinaryOperator" and e.get("opcode") == "=" and strip(e["inner"][0]).get("referencedDecl", {}).get("name") == "item"):
+        return False
+    r = strip(e["inner"][1])
+    if not (r.get("kind") == "UnaryOperator" and r.get("opcode") == "&"):
+        return False
+    a = strip(r["inner"][0])
+    return a.get("kind") == "ArraySubscriptExpr" and _member_path(a["inner"][0]) == RING and _member_path(a["inner"][1]) == RING + "_" + cursor
+
+
+def _wrap_incr(st, cursor):
+    """if (++self->...<cursor> >= CAT_UNSOLICITED_CMD_BUFFER_SIZE) self->...<cursor> = 0;"""
+    if st.get("kind") != "IfStmt" or len(st["inner"]) != 2:
+        return False
+    c = strip(st["inner"][0])
+    if not (c.get("kind") == "BinaryOperator" and c.get("opcode") == ">="):
+        return False
+    inc, lim = strip(c["inner"][0]), strip(c["inner"][1])
+    if not (inc.get("kind") == "UnaryOperator" and inc.get("opcode") == "++" and not inc.get("isPostfix") and
+            _member_path(inc["inner"][0]) == RING + "_" + cursor):
+        return False
+    if not (lim.get("kind") == "IntegerLiteral" and int(lim["value"]) == CAPMARK):
+        return False
+    th = [x for x in _block(st["inner"][1]) if not is_noise(x)]
+    if len(th) != 1:
+        return False
+    a = strip(th[0])
+    z = strip(a["inner"][1]) if a.get("kind") == "BinaryOperator" and a.get("opcode") == "=" else {}
+    return a.get("kind") == "BinaryOperator" and _member_path(a["inner"][0]) == RING + "_" + cursor and z.get("kind") == "IntegerLiteral" and z.get("value") == "0"
+
+
+def _count_step(st, op):
+    e = strip(st)
+    return e.get("kind") == "UnaryOperator" and e.get("opcode") == op and _member_path(e["inner"][0]) == RING + "_items_count"
+
+
+def _deref_assign(st, lhs_kind, field):
+    """*cmd = item->cmd  (lhs_kind 'out')   /   item->cmd = cmd  (lhs_kind 'item')"""
+    e = strip(st)
+    if not (e.get("kind") == "BinaryOperator" and e.get("opcode") == "="):
+        return False
+    l, r = strip(e["inner"][0]), strip(e["inner"][1])
+
+    def is_item_field(x):
+        b = strip(x["inner"][0]) if x.get("kind") == "MemberExpr" and x.get("inner") else {}
+        return x.get("kind") == "MemberExpr" and x.get("name") == field and b.get("referencedDecl", {}).get("name") == "item"
+
+    def is_param(x, deref):
+        if deref:
+            return x.get("kind") == "UnaryOperator" and x.get("opcode") == "*" and strip(x["inner"][0]).get("referencedDecl", {}).get("name") == field
+        return x.get("referencedDecl", {}).get("name") == field
+    if lhs_kind == "out":
+        return is_param(l, True) and is_item_field(r)
+    return is_item_field(l) and is_param(r, False)
+
+
+def t13(ast):
+    # pop
+    _, body = find_fn(ast, "pop_unsolicited_cmd")
+    sts = [x for x in body.get("inner", []) if not is_noise(x) and x.get("kind") != "DeclStmt"]
+    ok = (len(sts) == 7 and sts[0].get("kind") == "IfStmt" and _is_pred_call(sts[0]["inner"][0], "is_unsolicited_buffer_empty")
+          and [_ret_name(x) for x in _block(sts[0]["inner"][1]) if not is_noise(x)] == ["CAT_STATUS_ERROR_BUFFER_EMPTY"]
+          and _item_addr(sts[1], "head") and _deref_assign(sts[2], "out", "cmd") and _deref_assign(sts[3], "out", "type")
+          and _wrap_incr(sts[4], "head") and _count_step(sts[5], "--") and _ret_name(sts[6]) == "CAT_STATUS_OK")
+    if not ok:
+        raise Unrecognised("T13: pop_unsolicited_cmd has an unrecognised shape")
+    pop = ("/-- `pop_unsolicited_cmd` of src/cat.c: the status, and the popped entry in place of the two out-parameters -/\n"
+           "def pop_unsolicited_cmd (D : Desc) (s : St) : St × Int × (Nat × CmdType) :=\n"
+           "  if Gen.is_unsolicited_buffer_empty s.rcount then (s, Gen.CAT_STATUS_ERROR_BUFFER_EMPTY, (0, .none))\n"
+           "  else\n"
+           "    let s : St := s.chk (s.rhead < D.cap);   -- ghost check: the slot lies inside the ring\n"
+           "    let item := s.ring.getD s.rhead (0, .none);\n"
+           "    let s : St := { s with rhead := s.rhead + 1 };\n"
+           "    let s : St := (if s.rhead ≥ D.cap then { s with rhead := 0 } else s);\n"
+           "    let s : St := { s with rcount := s.rcount - 1 };\n"
+           "    (s, Gen.CAT_STATUS_OK, item)")
+    # push
+    _, body = find_fn(ast, "push_unsolicited_cmd")
+    sts = [x for x in body.get("inner", []) if not is_noise(x) and x.get("kind") != "DeclStmt"]
+    ok = (len(sts) == 7 and sts[0].get("kind") == "IfStmt" and _is_pred_call(sts[0]["inner"][0], "is_unsolicited_buffer_full")
+          and [_ret_name(x) for x in _block(sts[0]["inner"][1]) if not is_noise(x)] == ["CAT_STATUS_ERROR_BUFFER_FULL"]
+          and _item_addr(sts[1], "tail") and _deref_assign(sts[2], "item", "cmd") and _deref_assign(sts[3], "item", "type")
+          and _wrap_incr(sts[4], "tail") and _count_step(sts[5], "++") and _ret_name(sts[6]) == "CAT_STATUS_OK")
+    if not ok:
+        raise Unrecognised("T13: push_unsolicited_cmd has an unrecognised shape")
+    push = ("/-- `push_unsolicited_cmd` of src/cat.c -/\n"
+            "def push_unsolicited_cmd (D : Desc) (s : St) (c : Nat) (t : CmdType) : St × Int :=\n"
+            "  if Gen.is_unsolicited_buffer_full s.rcount D.cap then (s, Gen.CAT_STATUS_ERROR_BUFFER_FULL)\n"
+            "  else\n"
+            "    let s : St := s.chk (s.rtail < D.cap);   -- ghost check: the slot lies inside the ring\n"
+            "    let s : St := { s with ring := s.ring.set s.rtail (c, t) };\n"
+            "    let s : St := { s with rtail := s.rtail + 1 };\n"
+            "    let s : St := (if s.rtail ≥ D.cap then { s with rtail := 0 } else s);\n"
+            "    let s : St := { s with rcount := s.rcount + 1 };\n"
+            "    (s, Gen.CAT_STATUS_OK)")
+    # check_unsolicited_buffers
+    _, body = find_fn(ast, "check_unsolicited_buffers")
+    sts = [x for x in body.get("inner", []) if not is_noise(x) and x.get("kind") != "DeclStmt"]
+    ok = len(sts) == 3 and sts[0].get("kind") == "IfStmt" and sts[2].get("kind") == "SwitchStmt"
+    if ok:
+        c = strip(sts[0]["inner"][0])
+        call = strip(c["inner"][0]) if c.get("kind") == "BinaryOperator" and c.get("opcode") == "!=" else {}
+        ok = (call.get("kind") == "CallExpr" and strip(call["inner"][0]).get("referencedDecl", {}).get("name") == "pop_unsolicited_cmd"
+              and strip(c["inner"][1]).get("referencedDecl", {}).get("name") == "CAT_STATUS_OK" and len(call["inner"]) == 4)
+        if ok:
+            a1, a2 = strip(call["inner"][2]), strip(call["inner"][3])
+            ok = (a1.get("kind") == "UnaryOperator" and a1.get("opcode") == "&" and _member_path(a1["inner"][0]) == "unsolicited_fsm.cmd"
+                  and a2.get("kind") == "UnaryOperator" and a2.get("opcode") == "&" and strip(a2["inner"][0]).get("referencedDecl", {}).get("name") == "type")
+        th = [x for x in _block(sts[0]["inner"][1]) if not is_noise(x)]
+        ok = ok and len(th) == 1 and th[0].get("kind") == "ReturnStmt" and not th[0].get("inner")
+        e = strip(sts[1])
+        ok = ok and e.get("kind") == "BinaryOperator" and e.get("opcode") == "=" and _member_path(e["inner"][0]) == "unsolicited_fsm.cmd_type" \
+            and strip(e["inner"][1]).get("referencedDecl", {}).get("name") == "type"
+        ok = ok and strip(sts[2]["inner"][0]).get("referencedDecl", {}).get("name") == "type"
+    if not ok:
+        raise Unrecognised("T13: check_unsolicited_buffers has an unrecognised shape")
+    arms = {}
+    for labels, stmts in switch_arms(sts[2], None, None):
+        body2 = [x for x in stmts if not is_noise(x) and x.get("kind") != "BreakStmt"]
+        for l in labels:
+            if l == "default":
+                if body2:
+                    raise Unrecognised("T13: non-empty default arm")
+                continue
+            if l not in CTYPE or len(body2) != 1:
+                raise Unrecognised("T13: unrecognised arm of switch (type)")
+            nm, fsm = _call_of(strip(body2[0]))
+            if fsm != ".uns" or nm not in ("start_processing_format_read_args", "start_processing_format_test_args"):
+                raise Unrecognised("T13: unrecognised call in switch (type)")
+            arms[CTYPE[l]] = ("startFormatRead D s .uns" if nm.endswith("read_args") else "startFormatTest D s .uns")
+    chk = ("/-- `check_unsolicited_buffers` of src/cat.c -/\n"
+           "def check_unsolicited_buffers (D : Desc) (s : St) : St :=\n"
+           "  let r := pop_unsolicited_cmd D s;\n"
+           "  if r.2.1 != Gen.CAT_STATUS_OK then r.1\n"
+           "  else\n"
+           "    let s : St := { r.1 with ucmd := some r.2.2.1 };   -- the first out-parameter is &self->unsolicited_fsm.cmd\n"
+           "    let s : St := { s with ucmdType := r.2.2.2 };\n"
+           "    let s : St := s.emit (.pop r.2.2.1 r.2.2.2);   -- ghost event\n"
+           + "".join("    if r.2.2.2 == %s then %s else\n" % (k, v) for k, v in arms.items()) + "    s")
+    return [pop, push, chk]
+
+
 def t9(ast):
     defs = []
     for name in STEPS:
@@ -1730,7 +1899,8 @@ def t9(ast):
         defs.append(_writer(ast, *w))
     defs += t11(ast)
     defs += t12(ast)
-    hdr = ("/-\n  GENERATED by tools/translate.py from small step functions of src/cat.c (T9 - T12). Do not edit.\n"
+    defs += t13(ast)
+    hdr = ("/-\n  GENERATED by tools/translate.py from small step functions of src/cat.c (T9 - T13). Do not edit.\n"
            "  `Proofs/Steps.lean` proves the model's functions equal to these.\n-/\n"
            "import CatVerif.Model.Fsm\nnamespace Cat.Gen\nopen Cat St\nset_option linter.unusedVariables false\n\n")
     return hdr + "\n\n".join(defs) + "\n\nend Cat.Gen\n"
